@@ -48,3 +48,22 @@ Definition append_only_slots (accs : list caccess) : list (string * string) :=
 
 Definition slot_free (accs : list caccess) (s f : string) : bool :=
   negb (existsb (fun p => String.eqb s (fst p) && String.eqb f (snd p)) (unprotected_slots accs)).
+
+(* ------------------------------------------------------------------ cached slices / maps escaping the lock *)
+(* cescape: function e_fn returns, without copying, a slice / map that lives in a struct (e_via says which:
+   a selector on a slice/map field, a local bound to one, or the result of another escaping function), either
+   directly (e_label = "") or as field e_label of the returned struct.
+   cmutate: function m_fn applies the in-place mutation m_op (slices.Sort* / Reverse, sort.*, index assignment,
+   append whose result is not stored back) to m_expr, whose root variable came from a call of m_origin
+   ("fresh": built in m_fn; "param" / "other" otherwise); m_path = first selector below that variable. *)
+Record cescape := mkesc { e_fn : string; e_label : string; e_via : string; e_file : string; e_line : nat }.
+Record cmutate := mkmut { m_fn : string; m_op : string; m_expr : string; m_origin : string; m_path : string;
+                          m_file : string; m_line : nat }.
+
+(* a value obtained from an escaping function, mutated in place by its caller: the caller writes into memory
+   that the callee still holds (and hands to every other caller) *)
+Definition mutates_cached (escs : list cescape) (m : cmutate) : bool :=
+  existsb (fun e => String.eqb (e_fn e) (m_origin m) && String.eqb (e_label e) (m_path m)) escs.
+
+Definition cached_mutations (escs : list cescape) (muts : list cmutate) : list cmutate :=
+  filter (mutates_cached escs) muts.
